@@ -31,6 +31,21 @@ def st(name: str) -> T.Term:
     return S(f"rex.constants.Async.{name}")
 
 
+def _inline_only_helper(model: Model, qualname: str, name: str) -> bool:
+    """A method the reference tree does not have and that is only ever *called* (never passed as a value, e.g. to _submit)."""
+    from .symeval import _known_api
+    known = _known_api()
+    if not known or qualname in known:
+        return False
+    fi = model.func(qualname)
+    tree = model.modules[fi.module].tree if hasattr(model.modules[fi.module], "tree") else None
+    if tree is None:
+        return False
+    called = {id(n.func) for n in ast.walk(tree) if isinstance(n, ast.Call)}
+    refs = [n for n in ast.walk(tree) if isinstance(n, ast.Attribute) and n.attr == name]
+    return bool(refs) and all(id(n) in called for n in refs)
+
+
 class AsyncView:
     """Evaluated bodies of all wrapper methods and task closures, with receiver classification."""
 
@@ -42,6 +57,8 @@ class AsyncView:
         for cls, key in ((NODE, "node"), (CONN, "conn")):
             ci = model.cls(cls)
             for name in ci.methods:
+                if _inline_only_helper(model, f"{cls}.{name}", name):
+                    continue  # analysed at its call sites (see SymEval.is_new_helper), not as a task entry of its own
                 r = self.ar.eval(f"{cls}.{name}")
                 self.results[f"{key}.{name}"] = r
                 self.cls_of[f"{key}.{name}"] = key
